@@ -231,6 +231,8 @@ def execute(case):
                     raw[-1] ^= 1
                 elif flaw == "body":
                     raw[22] ^= 0x80
+                elif flaw == "sidfield":
+                    raw[6:8] = b"\x00\x01"
                 elif flaw == "timer":
                     wire_v = min(v + 100_000, MAX_T) if v < MAX_T else v - 1
                     raw[8:14] = wire_v.to_bytes(6, "big")
@@ -298,7 +300,7 @@ def execute(case):
 
 
 def _flawname(f: str) -> str:
-    return {"mac": "forged-mac", "body": "tampered-ciphertext", "timer": "tampered-timer-field", "key": "wrong-key", "sid": "wrong-session-id"}[f]
+    return {"mac": "forged-mac", "body": "tampered-ciphertext", "timer": "tampered-timer-field", "key": "wrong-key", "sid": "wrong-session-id", "sidfield": "tampered-session-id-field"}[f]
 
 
 def judge(ctx, case, records, wire, escaped, meta) -> dict:
@@ -427,7 +429,7 @@ _voff = st.one_of(
 )
 _dt = st.sampled_from([0, 1, 1, 5, 50, 120, 400, 1000, 3500, 11000])
 _nflaw = st.sampled_from(["none", "none", "none", "mac", "timer", "key"])
-_wflaw = st.sampled_from(["none", "none", "none", "none", "mac", "body", "timer", "key", "sid"])
+_wflaw = st.sampled_from(["none", "none", "none", "none", "none", "mac", "body", "timer", "key", "sid", "sidfield"])
 _who = st.sampled_from(["reply", "reply", "wrongtag", "peer", "peer", "peer_sametag"])
 _inner = st.one_of(st.just("routing_indication"), st.just("routing_indication"), st.sampled_from(["routing_busy", "routing_lost_message", "search_request", "tunnelling_request", "nested", "truncated", "remote_diag_request", "secure_wrapper_garbage", "unknown_service_0999", "timer_notify_zero_mac"]), st.sampled_from(_CAT))
 
